@@ -779,3 +779,27 @@ Theorem c12_set_payload_of_table :
    icmp6_time_exceeded_set_payload; icmp6_dest_unreachable_set_payload; ext_object_set_payload] /\
   forall t, exists min off, payload_setter_ok min off (set_payload_of t).
 Proof. exact set_payload_of_table. Qed.
+
+(* ---------------------------------------------------------------------------------------------- *)
+(* Ipv4Packet::get_options_raw_mut: the one accessor that hands out a mutable window (Packet/OptionsMut.v).      *)
+From TV Require Import Packet.OptionsMut Proofs.OptionsMutProofs.
+
+(* the window is the RFC 791 options field: it starts behind the fixed header (octet 20) and ends where the
+   payload starts (4 * IHL octets in, never before octet 20), cut at the end of the buffer - for every buffer
+   the packet type accepts and every IHL, without fault *)
+Theorem c12_options_window_is_the_rfc_options_field : forall buf, bytes buf -> (20 <= length buf)%nat ->
+  ipv4_options_mut_bounds buf = Ok (20%nat, Nat.min (ipv4_payload_offset buf) (length buf)).
+Proof. exact options_mut_bounds_ok. Qed.
+
+(* a write through the window keeps the length, changes no octet of the fixed header and none from the payload
+   offset on, and puts the written value at every octet of the options field *)
+Theorem c12_options_window_write_frame : forall g buf, bytes buf -> (20 <= length buf)%nat ->
+  exists buf', ipv4_options_mut_map g buf = Ok buf' /\ length buf' = length buf /\
+    (forall i, (i < 20 \/ Nat.min (ipv4_payload_offset buf) (length buf) <= i)%nat -> nth_error buf' i = nth_error buf i) /\
+    (forall i, (20 <= i < Nat.min (ipv4_payload_offset buf) (length buf))%nat -> nth_error buf' i = option_map g (nth_error buf i)).
+Proof. exact options_mut_map_spec. Qed.
+
+(* non-vacuity: IHL 7 on a 30-octet buffer - octets 20..27 are complemented, the rest stays *)
+Example c12_example_options_window :
+  ipv4_options_mut_map (fun x => 255 - x) (0x47 :: repeat 1 29) = Ok (0x47 :: repeat 1 19 ++ repeat 254 8 ++ repeat 1 2).
+Proof. vm_compute. reflexivity. Qed.
